@@ -420,3 +420,20 @@
     }
     pub open spec fn w1_step(gamma2: int) -> int { if gamma2 == 95_232 { 192 } else { 128 } }   // 32 * bitlen((q-1)/(2 gamma2) - 1)
     pub open spec fn w1_bytes(w: Seq<u8>, gamma2: int, i: int) -> Seq<u8> { w.subrange(i * w1_step(gamma2), (i + 1) * w1_step(gamma2)) }
+    // frame lemma: bytes outside [lo, hi) unchanged => any sub-range disjoint from [lo, hi) is unchanged
+    pub proof fn lemma_subrange_frame(a: Seq<u8>, b: Seq<u8>, from: int, to: int, lo: int, hi: int)
+        requires a.len() == b.len(), 0 <= from <= to <= a.len(), to <= lo || hi <= from,
+            forall|x: int| 0 <= x < lo && x < a.len() ==> a[x] == b[x],
+            forall|x: int| hi <= x < a.len() && 0 <= x ==> a[x] == b[x],
+        ensures a.subrange(from, to) == b.subrange(from, to),
+    {
+        assert(a.subrange(from, to) =~= b.subrange(from, to));
+    }
+    pub proof fn lemma_mul_step(p: int, i: int, st: int)
+        requires 0 <= p < i, st >= 0,
+        ensures 0 <= p * st, (p + 1) * st == p * st + st, (p + 1) * st <= i * st,
+    {
+        assert(0 <= p * st) by (nonlinear_arith) requires p >= 0, st >= 0;
+        assert((p + 1) * st == p * st + st) by (nonlinear_arith);
+        assert((p + 1) * st <= i * st) by (nonlinear_arith) requires p < i, st >= 0;
+    }
